@@ -201,13 +201,37 @@ def base_geometries(case):
 # general position
 
 
+CUT_SCALE = [1.0]      # bonding criterion of the case in hand / default
+
+
+def _switching(case):
+    """the switching function of the case: None (default) or an instance
+    whose table holds a wider cutoff for every element pair of the geometry,
+    stored under ONE orientation of the pair only (the table is documented
+    to be symmetric)"""
+    f = case.get("cutoff_scale")
+    if not f:
+        return None
+    from stereomolgraph.coords import BondsFromDistance
+    from stereomolgraph.periodic_table import PERIODIC_TABLE
+    sw = BondsFromDistance()
+    zs = sorted(set(case["_elements"]))
+    for i, z1 in enumerate(zs):
+        for z2 in zs[i:]:
+            a, b = PERIODIC_TABLE[z1], PERIODIC_TABLE[z2]
+            key = (a, b) if (z1 + z2 + case.get("cutoff_flip", 0)) % 2 \
+                else (b, a)
+            sw.connectivity_cutoff[key] = f * (G.RADII[z1] + G.RADII[z2])
+    return sw
+
+
 def _adjacency(elems, coords, margin=0.02):
     n = len(elems)
     adj = {i: set() for i in range(n)}
     for i in range(n):
         for j in range(i + 1, n):
             d = math.dist(coords[i], coords[j])
-            c = G.cutoff(elems[i], elems[j])
+            c = G.cutoff(elems[i], elems[j]) * CUT_SCALE[0]
             if abs(d - c) < margin * c:
                 return None
             if d < c:
@@ -339,11 +363,17 @@ def _geo(elems, coords):
     return Geometry(list(elems), np.array(coords, dtype=float).reshape(-1, 3))
 
 
+SWITCH = [None]
+
+
 def perceive(geos, stage):
     """-> real graph (SMG for one geometry, SCRG for a triple)"""
     from stereomolgraph import StereoCondensedReactionGraph, StereoMolGraph
     if len(geos) == 1:
         with guard(f"C07/{stage}/from_geometry"):
+            if SWITCH[0] is not None:
+                return StereoMolGraph.from_geometry(
+                    _geo(*geos[0]), switching_function=SWITCH[0])
             return StereoMolGraph.from_geometry(_geo(*geos[0]))
     r, p, t = geos
     with guard(f"C07/{stage}/from_geometries"):
@@ -397,10 +427,22 @@ def moved_geometries(case, geos):
 
 
 def check_move(ctx, case):
+    CUT_SCALE[0], SWITCH[0] = 1.0, None
+    try:
+        return _check_move_outer(ctx, case)
+    finally:
+        CUT_SCALE[0], SWITCH[0] = 1.0, None
+
+
+def _check_move_outer(ctx, case):
     geos = base_geometries(case)
     if geos == [None]:
         ctx.exclude("embedding-failed")
         return None
+    if case.get("cutoff_scale") and len(geos) == 1:
+        case = {**case, "_elements": list(geos[0][0])}
+        CUT_SCALE[0] = case["cutoff_scale"] / 1.2
+        SWITCH[0] = _switching(case)
     if case["kind"] == "smiles":
         n = len(geos[0][0])
         if sorted(case["perm"]) != list(range(n)):
@@ -645,9 +687,17 @@ def gen_template(tp):
         extra = [[8, [30.0, 0.0, 0.0]], [1, [30.6, 0.75, 0.0]],
                  [1, [30.6, -0.75, 0.0]]]
     n = natoms + len(extra)
+    lengths = [0.92 + tp.below(17) / 100.0 for _ in range(k)]
+    wide = None
+    if tp.chance(30):
+        # a user-supplied, wider bonding criterion (1.35 x the radii) and one
+        # ligand between the default and that criterion
+        wide = 1.35
+        lengths[tp.below(k)] = 1.24 + tp.below(8) / 100.0
     return {"kind": "template", "cls": cls,
             "centre": tp.pick(CENTRES[cls]), "ligands": ligs,
-            "lengths": [0.92 + tp.below(17) / 100.0 for _ in range(k)],
+            "lengths": lengths, "cutoff_scale": wide,
+            "cutoff_flip": tp.below(2),
             "noise": noise, "extra": extra,
             "order": tp.shuffle(range(n)), "perm": tp.shuffle(range(n)),
             "motions": [_motion(tp)], "mirror": tp.chance(90)}
